@@ -20,6 +20,34 @@ CStoreTerm(rec, term) == rec.term = term
 CStoreMatches(rec, before, act, rs) ==
   /\ CStoreObs(rec, before) /\ CStoreAct(rec, act) /\ CStoreReward(rec, rs.r)
   /\ CStoreNext(rec, rs.obs) /\ CStoreTerm(rec, rs.term)
+(* a row that reaches a learner (row of the batch an on-policy routine prepares from its rollout / episode record and
+   hands to its policy / value update): whatever the layout of the batch, the row must be ONE real environment step -
+   `p`, a transition the environment produced.  Only the fields the row carries (`has`) are compared; a produced
+   action "any" stands for a call whose action the vector environment ignored (auto-reset call, NEXT_STEP mode). *)
+CRowActOk(row, has, p) == "act" \in has => (p.act = "any" \/ CStoreAct(row, p.act))
+CRowRewardOk(row, has, p) == "r" \in has => CStoreReward(row, p.r)
+CRowNextOk(row, has, p) == "next" \in has => CStoreNext(row, p.next)
+CRowTermOk(row, has, p) == "term" \in has => CStoreTerm(row, p.term)
+CRowMatches(row, has, p) ==
+  /\ CStoreObs(row, p.obs) /\ CRowActOk(row, has, p) /\ CRowRewardOk(row, has, p)
+  /\ CRowNextOk(row, has, p) /\ CRowTermOk(row, has, p)
+(* the first field that rules out every produced transition (fields in the order of the property text), "ok" if one matches *)
+CRowVerdict(row, has, produced) ==
+  LET c0 == {p \in produced : CStoreObs(row, p.obs)}
+      c1 == {p \in c0 : CRowActOk(row, has, p)}
+      c2 == {p \in c1 : CRowRewardOk(row, has, p)}
+      c3 == {p \in c2 : CRowNextOk(row, has, p)}
+      c4 == {p \in c3 : CRowTermOk(row, has, p)}
+  IN IF c0 = {} THEN "RowObs" ELSE IF c1 = {} THEN "RowAct" ELSE IF c2 = {} THEN "RowReward"
+     ELSE IF c3 = {} THEN "RowNext" ELSE IF c4 = {} THEN "RowTerm" ELSE "ok"
+(* an experience record (model-based tabular learners: per (o, a, o') a transition count and the list of rewards):
+   the entry of (o, a, o') speaks about exactly the steps (o, a) -> o' the environment produced so far, in order;
+   `steps` = CStepsOf(history of produced transitions, o, a, o') *)
+CStepsOf(hist, o, a, n) == SelectSeq(hist, LAMBDA p : p.obs = o /\ p.act = a /\ p.next = n)
+CRecordProduced(steps) == Len(steps) > 0
+CRecordCount(entry, steps) == entry.n = Len(steps)
+CRecordRewards(entry, steps) == entry.rs = [i \in 1..Len(steps) |-> steps[i].r]
+CRecordEntryMatches(entry, steps) == CRecordProduced(steps) /\ CRecordCount(entry, steps) /\ CRecordRewards(entry, steps)
 (* no parameter update before the documented warm-up: s = index of the latest executed step *)
 CMayLearn(s, warm) == s >= warm
 (* reported count = starting count + executed steps *)
